@@ -35,18 +35,23 @@ THEOREMS = {
         "Dawgs.C10.Props.float_integral_becomes_int_old",
         "Dawgs.C10.Props.literal_roundtrip_string",
         "Dawgs.C10.Props.prepare_preserves_eval",
-        "Dawgs.C10.Props.hoist_from_or_changes_meaning",
-        "Dawgs.C10.Props.hoist_from_xor_changes_meaning",
-        "Dawgs.C10.Props.prepare_keeps_negated_kind_matcher",
+        "Dawgs.C10.Props.prepare_hoists_at_most_one",
+        "Dawgs.C10.Props.prepare_preserves_eval_old",
+        "Dawgs.C10.Props.hoist_from_or_changes_meaning_old",
+        "Dawgs.C10.Props.hoist_from_xor_changes_meaning_old",
+        "Dawgs.C10.Props.prepare_keeps_negated_kind_matcher_old",
         "Dawgs.C10.Props.hoist_from_negation_changes_meaning",
-        "Dawgs.C10.Props.two_hoisted_conjuncts_change_meaning",
-        "Dawgs.C10.Props.hoist_all_of_changes_meaning",
+        "Dawgs.C10.Props.two_hoisted_conjuncts_change_meaning_old",
+        "Dawgs.C10.Props.hoist_all_of_changes_meaning_old",
         "Dawgs.C10.Props.string_negation_guard_eval",
     ],
 }
 
-# VERIF_C10_MODE=fixed: the repository under test carries hooks/C10-fix.patch; the Lean side answers with emitFixed
-MODE = "current" if os.environ.get("VERIF_C10_MODE") == "current" else "fixed"   # hooks/C10-fix-{1,2,3} are committed in /repo (4086218 04efdd9 7bfe5dc)
+# VERIF_C10_MODE selects which state of /repo the Lean side answers for:
+#   live (default)  format.go with the three C10 fixes AND Prepare with hooks/C10-fix7 (hoist one any-of matcher from a conjunctive position)
+#   prepold         format.go with the fixes, Prepare before fix7
+#   current         everything before the fixes
+MODE = {"prepold": "prepold", "current": "current"}.get(os.environ.get("VERIF_C10_MODE", ""), "fixed")
 
 
 def fields(line):
